@@ -40,6 +40,8 @@ def variant_forms(rng, spec):
             a['_date_form'] = gen.pick(rng, ['datetime', 'timestamp', 'date'] + (['aware_utc', 'aware_utc', 'aware_other'] if spec['grid'].get('tz') else []))
         if a['type'] in ('Plant', 'CHPAsset') and rng.random() < 0.6:
             a['_seq_form'] = 'array'          # ramp profiles as numpy arrays (objects the user keeps and may reuse)
+        if (a.get('min_take') or a.get('max_take')) and '_container' not in a and rng.random() < 0.4:
+            a['_container'] = 'array'         # take volumes (and dates) handed over as numpy arrays the user keeps
         if rng.random() < 0.3 and '_container' not in a:
             a['_container'] = gen.pick(rng, ['dtindex', 'array', 'list', 'np_D', 'np_h', 'np_m', 'np_ns'])
     return spec
